@@ -42,7 +42,8 @@ CLAIMED["C10"] = ("(a) every allocation site's size expression (linear form over
     "3 C10")
 CLAIMED["C16"] = ("(a) typestate over sexp_gc / sexp_destroy_context: mark*, weak reset, finalize, sweep in that order on every path; "
     "(b) Ephemeron type row: key is the single weak slot, value the one extra slot, neither strongly traced, and a weak-column reader can reach the marker; "
-    "(c) every close/fclose of a fileno's descriptor or port stream in any unit (incl. generated stubs) is dominated by the owner's openp test and the store openp=0; one refcount decrement site. "
+    "(c) every close/fclose of a fileno's descriptor or port stream in any unit (incl. generated stubs) is dominated by the owner's openp test and the store openp=0; one refcount decrement site, counts of filenos not allocated on the spot are only incremented / decremented, and the function that stores a fileno into a port increments its count; "
+    "(e) a non-owning cpointer wrapping memory reached through another cpointer's C value names that object as parent (generated struct getters, on the re-generated stubs). "
     "(d) every reference field of every type is traced, so an owner keeps the descriptor object it owns alive. "
     "Necessary conditions of 'exactly once / only when unreachable'; reachability timing itself is not decided.",
     "typestate over the CFG (phase automaton), table/layout agreement, dominance (guard + flag store dominate release), call-graph reachability",
@@ -66,7 +67,8 @@ CLAIMED["C01"] = ("Structural clauses: (b) kind-set dataflow proves every typed 
 
 CLAIMED["C19"] = ("(a) every generated numeric accessor of (scheme bytevector) / (srfi 160 prims) that forms data(B)+off is dominated by "
     "checks implying 0 <= off and off + width <= length(B) (width taken from the helper's memcpy size / element type; facts from the "
-    "branch conditions, as linear forms); (b) the JSON reader and writer recursion cycles pass through a verified depth-parameter bounder. "
+    "branch conditions, as linear forms); (b) the JSON reader and writer recursion cycles pass through a verified depth-parameter bounder; (c) growable buffers of json.c advance at most their guard's budget; "
+    "(d) doubles compared with SEXP_MAX_FIXNUM-like constants use the operator that survives the constant's rounding; (e) no fixnum is boxed from a double accumulator without a bound <= 2^53 (integers must not lose low bits on the way in). "
     "Decides 'total on hostile offsets / nesting' for these codecs; encode/decode inverses and the Scheme-level codecs are not decided.",
     "relational guard-dominates-access over the CFG (linear forms of branch conditions vs. interprocedural width summaries of accessor helpers); call-graph SCC depth-bound verification",
     "3 C19")
@@ -136,7 +138,7 @@ CLAIMED["C11"] = ("Atomicity by construction: (a) no path in the whole-program c
     "whole-program call-graph reachability with function-pointer flow (per struct field / parameter); dominance side conditions justifying the cut edge",
     "3 C11")
 
-CLAIMED["C04"] = ("Two clauses. Numbers are immutable: no function Scheme code reaches with its own values modifies (a part of) an operand in place - "
+CLAIMED["C04"] = ("Three clauses. Rounded boundaries: a double compared with an integer constant binary64 cannot represent (SEXP_MAX_FIXNUM) uses the operator that stays correct under the rounding. Numbers are immutable: no function Scheme code reaches with its own values modifies (a part of) an operand in place - "
     "every store to a bignum sign / flonum value is traced to the origin of the object (fresh, operand, or handed back unchanged by a callee) along "
     "feasible paths and through destination-taking helpers to the entry points. Canonical-form must-pass-through. Raw producers are inferred (functions that allocate a bignum themselves, "
     "closed under 'may return such a value unsanitized' over the representation-level helpers); may-taint dataflow through each generic "
